@@ -4,6 +4,6 @@ cd /verif
 for d in ${@:-refactors/*/*}; do
   [ -f $d/patch.diff ] || continue
   [ -f $d/result.all.txt ] && [ -z "${FORCE:-}" ] && continue
-  tools/trypatch.sh $d/patch.diff > $d/result.all.txt 2>&1
+  tools/trypatch.sh $d/patch.diff $(tools/relevant_props.sh $d/patch.diff) > $d/result.all.txt 2>&1
   echo "$d: alarms: $(grep -v 'rc=0' $d/result.all.txt | tr '\n' ' ' | cut -c1-300)"
 done
